@@ -11,7 +11,7 @@ mod crash;
 mod exec;
 mod model;
 
-use exec::{run_sequence, Backend, ObsMode, SeqOut};
+use exec::{final_signature, run_sequence, Backend, Fail, ObsMode, SeqOut};
 use model::{op_text, ops_from_json, ops_to_json, Item, Op};
 use serde_json::{json, Value};
 use std::collections::{BTreeMap, HashSet};
@@ -208,12 +208,21 @@ pub fn fresh_dir(root: &std::path::Path, tag: &str) -> PathBuf {
     d
 }
 
+/// coarse signature -> (minimal failing sequence over all families, failure, family)
+type Found = BTreeMap<String, (Vec<Op>, Fail, &'static str)>;
+
+fn seq_detail(family: &str, tier: &str, ops: &[Op], what: &str) -> Value {
+    json!({"kind": "sequence", "family": family, "tier": tier, "what": what,
+           "example": format!("fresh store; [{}]; then: {}", ops.iter().map(op_text).collect::<Vec<_>>().join("; "), what),
+           "ops": ops.iter().map(op_text).collect::<Vec<_>>(), "ops_enc": ops_to_json(ops)})
+}
+
 struct TaskOut {
     evals: u64,
     calls: u64,
     nontrivial: u64,
     digests: HashSet<u64>,
-    fails: BTreeMap<String, (Vec<Op>, String)>,
+    fails: BTreeMap<String, (Vec<Op>, Fail)>,
     completed: bool,
 }
 
@@ -234,7 +243,7 @@ fn seqs_of_len(a: usize, len: usize) -> Vec<Vec<usize>> {
     out
 }
 
-fn run_family(ctx: &Ctx, fam: &Family, budget_end: Instant) {
+fn run_family(ctx: &Ctx, fam: &Family, budget_end: Instant, found: &mut Found) {
     let t0 = Instant::now();
     let a = fam.alphabet.len();
     // every length is run as a complete sequence of its own (with its final phase), shortest
@@ -277,11 +286,11 @@ fn run_family(ctx: &Ctx, fam: &Family, budget_end: Instant) {
                 let e = out.fails.entry(f.sig.clone());
                 match e {
                     std::collections::btree_map::Entry::Vacant(v) => {
-                        v.insert((failing, f.what));
+                        v.insert((failing, f));
                     }
                     std::collections::btree_map::Entry::Occupied(mut o) => {
                         if (failing.len(), &failing) < (o.get().0.len(), &o.get().0) {
-                            o.insert((failing, f.what));
+                            o.insert((failing, f));
                         }
                     }
                 }
@@ -310,7 +319,6 @@ fn run_family(ctx: &Ctx, fam: &Family, budget_end: Instant) {
     let mut calls = 0;
     let mut nontrivial = 0;
     let mut digests: HashSet<u64> = HashSet::new();
-    let mut fails: BTreeMap<String, (Vec<Op>, String)> = BTreeMap::new();
     let mut completed = 0usize;
     let mut full_len: Option<usize> = None;
     for &l in &lens {
@@ -328,28 +336,16 @@ fn run_family(ctx: &Ctx, fam: &Family, budget_end: Instant) {
         if o.completed {
             completed += 1;
         }
-        for (sig, (ops, what)) in o.fails {
-            match fails.get(&sig) {
-                Some((o2, _)) if (o2.len(), o2) <= (ops.len(), &ops) => {}
+        for (sig, (ops, f)) in o.fails {
+            match found.get(&sig) {
+                Some((o2, _, _)) if (o2.len(), o2) <= (ops.len(), &ops) => {}
                 _ => {
-                    fails.insert(sig, (ops, what));
+                    found.insert(sig, (ops, f, fam.name));
                 }
             }
         }
     }
     let exhaustive = completed == tasks.len();
-    // report smallest first
-    let mut fl: Vec<(String, Vec<Op>, String)> = fails.into_iter().map(|(s, (o, w))| (s, o, w)).collect();
-    fl.sort_by(|x, y| (x.1.len(), &x.1, &x.0).cmp(&(y.1.len(), &y.1, &y.0)));
-    for (sig, ops, what) in fl {
-        ctx.violation(
-            fam.name,
-            &sig,
-            json!({"kind": "sequence", "family": fam.name, "tier": ctx.tier.name(), "what": what,
-                   "example": format!("fresh store; [{}]; then: {}", ops.iter().map(op_text).collect::<Vec<_>>().join("; "), what),
-                   "ops": ops.iter().map(op_text).collect::<Vec<_>>(), "ops_enc": ops_to_json(&ops)}),
-        );
-    }
     let total: f64 = lens.iter().map(|&l| (a as f64).powi(l as i32)).sum();
     let sample = |idx: &[usize]| -> Value { json!(idx.iter().map(|&i| op_text(&fam.alphabet[i % a])).collect::<Vec<_>>()) };
     let d = fam.depth;
@@ -443,8 +439,7 @@ fn main() {
                 }
                 for f in out.fails {
                     eprintln!("replay: reproduced: {} :: {}", f.sig, f.what);
-                    ctx.violation("replay", &f.sig, json!({"kind": "sequence", "family": fam.name, "tier": d["tier"], "what": f.what,
-                        "ops": ops.iter().map(op_text).collect::<Vec<_>>(), "ops_enc": ops_to_json(&ops)}));
+                    ctx.violation("replay", &final_signature(&f, &ops), seq_detail(fam.name, d["tier"].as_str().unwrap_or("quick"), &ops, &f.what));
                 }
             }
             Some("crash") => crash::replay(&ctx, &d),
@@ -456,11 +451,18 @@ fn main() {
     // overall wall budget of the E2 legs (a leg that runs into it reports exhaustive=false)
     let budget_end = Instant::now() + Duration::from_secs(if ctx.quick() { 45 } else { 1500 });
     let fams = families(ctx.quick());
+    let mut found: Found = BTreeMap::new();
     for (i, fam) in fams.iter().enumerate() {
         // fair share of what is left, so that an overloaded machine cannot starve the later legs
         let left = budget_end.saturating_duration_since(Instant::now());
         let share = left / (fams.len() - i) as u32;
-        run_family(&ctx, fam, Instant::now() + share.max(Duration::from_secs(1)));
+        run_family(&ctx, fam, Instant::now() + share.max(Duration::from_secs(1)), &mut found);
+    }
+    // one report per coarse failure class, on the smallest failing sequence of all families
+    let mut fl: Vec<(Vec<Op>, Fail, &'static str)> = found.into_values().collect();
+    fl.sort_by(|x, y| (x.0.len(), &x.0, &x.1.sig).cmp(&(y.0.len(), &y.0, &y.1.sig)));
+    for (ops, f, family) in fl {
+        ctx.violation(family, &final_signature(&f, &ops), seq_detail(family, ctx.tier.name(), &ops, &f.what));
     }
     crash::run_legs(&ctx);
 
